@@ -29,6 +29,7 @@ import random
 import re
 import shutil
 import tempfile
+import warnings
 from concurrent.futures import ProcessPoolExecutor, ThreadPoolExecutor
 from pathlib import Path
 
@@ -41,7 +42,7 @@ from ..tracekit import parse_prints, validate_traces
 PROPERTY = "C12"
 LEVEL = "model_checking"
 
-LAWS = "LawBaseValid LawConj LawOpClause LawMapDenote"
+LAWS = "Laws"
 INVS = "InvRejectIsPure InvNoCodeBeforeAccept InvOnlyReject InvValidAccepted InvEnds"
 MCFG = """SPECIFICATION MSpec
 CONSTANTS MaxSize = {maxsize} RichM = {richm} ShardM = {shardm} NShardsM = {nshardsm}
@@ -77,7 +78,8 @@ def run_request(tdesc: dict, inputs: list, cfg: dict, run_folder: str | None, ki
     exc: BaseException | None = None
     executor = None
     try:
-        with contextlib.redirect_stdout(io.StringIO()):
+        with contextlib.redirect_stdout(io.StringIO()), warnings.catch_warnings():
+            warnings.simplefilter("ignore")
             pdesc = pmap.tla_desc_to_py(tdesc)
             pl = build.make_pipeline(pdesc)
             stage = "map"
@@ -158,7 +160,7 @@ def features(req: dict) -> dict:
 
 def report(ctx: Ctx, kind: str, exp: dict, obs: dict, bad: list[str]) -> None:
     req = exp["req"]
-    sig = {"check": kind, "op": exp.get("op", "?"), "violated": exp.get("violated", "?"), "fault": "+".join(bad),
+    sig = {"check": kind.split(":")[0], "source": kind.split(":", 1)[1] if ":" in kind else "universe", "op": exp.get("op", "?"), "violated": exp.get("violated", "?"), "fault": "+".join(bad),
            "outcome": obs["outcome"], "cls": obs["cls"], **features(req)}
     ctx.violation(sig, f"{kind} op={exp.get('op')} (specification: violates {exp.get('violated')}; cleanup="
                        f"{req['cfg']['cleanup']} storage={req['cfg']['storage']} folder={req['cfg']['folder']}): real code "
@@ -192,8 +194,8 @@ def export_mutants(ctx: Ctx, shards: list[tuple[int, int, int, int]], workers: i
                     cases.append(p)
                 elif t == "STAYED_VALID":
                     stayed[p["op"]] = stayed.get(p["op"], 0) + 1
-    if not cases:
-        raise MachineryError("MC_Validity exported no mutants")
+    if not any(features(c["req"])["mapped"] for c in cases) or all(features(c["req"])["mapped"] for c in cases):
+        raise MachineryError("MC_Validity: a universe shard is empty (no mapped / no call-style mutants exported)")
     cases.sort(key=lambda c: json.dumps(c, sort_keys=True))
     return cases, stayed
 
@@ -207,8 +209,8 @@ def ordering_counterexamples(ctx: Ctx, shard: tuple[int, int, int, int]) -> None
     unknown storage name that is never looked at (pipelines without MapSpec)."""
     found = {}
     for inv in ("InvRejectIsPure", "InvOnlyReject"):
-        r = run_tlc("MC_Validity", mcfg(*shard, storage_check="late", invs=inv), ctx.workdir("late_" + inv), workers=1,
-                    timeout=1800)
+        r = run_tlc("MC_Validity", mcfg(*shard, storage_check="late", invs=inv) + "CONSTRAINT StorageMutantsOnly\n",
+                    ctx.workdir("late_" + inv), workers=1, timeout=1800)
         ctx.add_tlc(r, f"MC_Validity MSpec late ordering, {inv} (violation expected)")
         if inv not in r.violated:
             raise MachineryError(f"the implementation-shaped ordering does not violate {inv}: the Prepare model does not "
@@ -258,7 +260,7 @@ STRIP = ("obs", "op", "label", "kinds")
 
 def validate(ctx: Ctx, traces: list[dict], name: str) -> dict[int, int]:
     rej = validate_traces(ctx, "MC_Validity", traces, name, invariants=["InvRejectIsPure", "InvNoCodeBeforeAccept"],
-                          strip=STRIP, constants=TRACE_CONSTANTS, chunk=max(50, len(traces) // 8 + 1))
+                          strip=STRIP, constants=TRACE_CONSTANTS, chunk=max(100, len(traces) // 4 + 1))
     if rej:
         verdicts = spec_verdicts(ctx, [traces[i] for i in sorted(rej)], name)
         for k, i in enumerate(sorted(rej)):
@@ -270,7 +272,8 @@ def validate(ctx: Ctx, traces: list[dict], name: str) -> dict[int, int]:
                   (["valid-request-rejected"] if obs["outcome"] == "rejected" and exp["violated"] == "none" else []) + \
                   (["user-code-ran"] if obs["outcome"] == "rejected" and obs["calls"] else []) + \
                   (["folder-changed"] if obs["outcome"] == "rejected" and obs["folder_changed"] and not tr["cfg"]["cleanup"] else [])
-            report(ctx, "traced:" + (tr["label"] or name), exp, obs, bad or ["not-an-end-state-of-Prepare"])
+            report(ctx, "traced:" + ("random" if tr["label"] == "random" else "replay" if tr["label"] == "replay" else "fixed"),
+                   exp, obs, bad or ["not-an-end-state-of-Prepare"])
     return rej
 
 
@@ -456,11 +459,11 @@ def run(ctx: Ctx) -> None:
     s = ctx.seed
     if quick:
         # two TLC processes: one C01 shard, one C02 shard (Shard = NShards switches the other universe off)
-        shards = [(s % 64, 64, 8, 8), (64, 64, s % 8, 8)]
+        shards = [(s % 48, 48, 16, 16), (48, 48, s % 16, 16)]
     else:
         shards = [((s + 5 * k) % 16, 16, 4, 4) for k in range(3)] + [(16, 16, k, 4) for k in range(4)]
     cases, stayed = export_mutants(ctx, shards, workers=2)
-    ordering_counterexamples(ctx, (s % 64, 64, s % 8, 8))
+    ordering_counterexamples(ctx, (s % 48, 48, s % 16, 16))
     ctx.exhaustive = False
     ctx.extra["universe"] = f"shards (ShardM, NShardsM, ShardP, NShardsP) = {shards}"
     ctx.extra["mutants_stayed_valid_discarded"] = stayed
@@ -501,14 +504,13 @@ def run(ctx: Ctx) -> None:
 
     # fixed examples and random larger mutants: TLC decides
     fixed = run_traced_jobs(fixed_jobs())
-    rnd = run_traced_jobs(random_jobs(rng, 300 if quick else 6000))
+    rnd = run_traced_jobs(random_jobs(rng, 150 if quick else 6000))
     for t in fixed + rnd:
         ctx.case({"req": [t["desc"], t["inputs"], t["cfg"]]}, nontrivial=t["obs"]["outcome"] == "rejected")
     ctx.extra["fixed_examples"] = [{"label": t["label"], "outcome": t["obs"]["outcome"], "cls": t["obs"]["cls"]} for t in fixed]
     ctx.extra["random_outcomes"] = {k: sum(1 for t in rnd if t["obs"]["outcome"] == k) for k in ("rejected", "returned")}
     stage("fixed + random runs")
-    validate(ctx, fixed, "fixed")
-    validate(ctx, rnd, "random")
+    validate(ctx, fixed + rnd, "traced")
     stage("trace validation")
     selftest(ctx, pairs, fixed + rnd)
     stage("selftest")
